@@ -1,6 +1,7 @@
 import FcpptModel.Spec.C13
 import FcpptProofs.C13.Sets
 import FcpptProofs.C13.Arith
+import FcpptProofs.C13.Ext
 set_option linter.unusedSimpArgs false
 /-!
 # C13 — property theorems: boxes are half-open point sets
@@ -693,6 +694,542 @@ theorem intersects_of_distance_neg (a b : Box n) (ha : NonEmpty a) (hb : NonEmpt
   have := (idExact_sign _ _ _ _ ha' hb').2 (h i)
   omega
 
+/-! # Extension round: laws, mutable accessors, statement sequences, loops, neighbouring functions -/
+/-! ## algebraic laws of `intersects`, `intersection`, `extend_bounding_box` -/
+
+theorem intersects_comm (a b : Box n) : intersects a b = intersects b a := by
+  rw [Bool.eq_iff_iff, intersects_iff, intersects_iff]
+  constructor <;> intro h i <;> exact ⟨(h i).2, (h i).1⟩
+
+/-- `intersection` does not depend on the order of its arguments (as a box, not only as a point set). -/
+theorem intersection_comm (t : Ty) (a b : Box n) : intersection t a b = intersection t b a := by
+  unfold intersection
+  rw [intersects_comm a b]
+  split
+  · congr 1
+    apply box_ext <;> intro i <;> simp only [Fin.getElem_fin, initMax_min, initMax_max] <;> omega
+  · rfl
+
+/-- `intersects(a, a)` says that `a` is non-empty … -/
+theorem intersects_self_iff (a : Box n) : intersects a a = true ↔ NonEmpty a := by
+  rw [intersects_iff, nonEmpty_iff]
+  constructor
+  · intro h i; exact (h i).1
+  · intro h i; exact ⟨h i, h i⟩
+
+/-- … and then `intersection(a, a)` is `a`; for an empty `a` it is the null box. -/
+theorem intersection_self (t : Ty) (a : Box n) :
+    intersection t a a = .ok (if intersects a a then a else ⟨vzero n, vzero n⟩) := by
+  unfold intersection
+  split
+  · congr 1
+    apply box_ext <;> intro i <;> simp only [Fin.getElem_fin, initMax_min, initMax_max] <;> omega
+  · exact null_eq t n
+
+/-- a non-empty box contained in `a` is its own intersection with `a` -/
+theorem intersection_of_contains (t : Ty) (a b : Box n) (hb : NonEmpty b) (h : contains a b = true) :
+    intersection t a b = .ok b := by
+  have hc := (contains_iff a b).1 h
+  have hne := (nonEmpty_iff b).1 hb
+  have hi : intersects a b = true := by
+    rw [intersects_iff]
+    intro i
+    have := hc i
+    have := hne i
+    simp only [Fin.getElem_fin] at *
+    omega
+  unfold intersection
+  rw [hi]
+  simp only [if_true]
+  congr 1
+  apply box_ext <;> intro i <;> have := hc i <;> simp only [Fin.getElem_fin, initMax_min, initMax_max] at * <;> omega
+
+theorem extendBox_comm (a b : Box n) : extendBox a b = extendBox b a := by
+  apply box_ext <;> intro i <;> simp only [Fin.getElem_fin, extendBox, initMax_min, initMax_max] <;> omega
+
+theorem extendBox_self (a : Box n) : extendBox a a = a := by
+  apply box_ext <;> intro i <;> simp only [Fin.getElem_fin, extendBox, initMax_min, initMax_max] <;> omega
+
+theorem extendBox_assoc (a b c : Box n) : extendBox (extendBox a b) c = extendBox a (extendBox b c) := by
+  apply box_ext <;> intro i <;> simp only [Fin.getElem_fin, extendBox, initMax_min, initMax_max] <;> omega
+
+/-- a box that is contained corner-wise adds nothing -/
+theorem extendBox_of_contains (a b : Box n) (h : contains a b = true) : extendBox a b = a := by
+  have hc := (contains_iff a b).1 h
+  apply box_ext <;> intro i <;> have := hc i <;>
+    simp only [Fin.getElem_fin, extendBox, initMax_min, initMax_max] at * <;> omega
+
+/-- extending by a point is extending by the degenerate box at that point -/
+theorem extendPoint_eq_extendBox (b : Box n) (p : Vec n) : extendPoint b p = extendBox b ⟨p, p⟩ := by
+  apply box_ext <;> intro i <;> simp only [Fin.getElem_fin, extendBox, extendPoint, initMax_min, initMax_max] <;> omega
+
+/-! ## assignment through the mutable `pos()` / `max()` -/
+
+/-- `b.pos() = v` replaces the minimum corner and leaves `max()` alone: the box is *not* moved,
+    its size changes to `max - v`. -/
+theorem setPos_spec (b : Box n) (v : Vec n) : (setPos b v).min = v ∧ (setPos b v).max = b.max := ⟨rfl, rfl⟩
+
+theorem setMax_spec (b : Box n) (v : Vec n) : (setMax b v).min = b.min ∧ (setMax b v).max = v := ⟨rfl, rfl⟩
+
+theorem mem_setPos (b : Box n) (v p : Vec n) : Mem (setPos b v) p ↔ ∀ i : Fin n, v[i] ≤ p[i] ∧ p[i] < b.max[i] := Iff.rfl
+
+theorem mem_setMax (b : Box n) (v p : Vec n) : Mem (setMax b v) p ↔ ∀ i : Fin n, b.min[i] ≤ p[i] ∧ p[i] < v[i] := Iff.rfl
+
+theorem size_setPos (t : Ty) (b : Box n) (v : Vec n) (h : ∀ i : Fin n, t.Rep (b.max[i] - v[i])) :
+    size t (setPos b v) = .ok (vsub b.max v) := size_spec t (setPos b v) h
+
+/-- writing both corners back (also through a `no_init` box) reproduces the box -/
+theorem setMax_setPos_self (b : Box n) : setMax (setPos b b.min) b.max = b := rfl
+
+theorem setPos_setMax_comm (b : Box n) (v w : Vec n) : setPos (setMax b w) v = setMax (setPos b v) w := rfl
+
+/-! ## statement sequences -/
+
+theorem run_append (t : Ty) (s : St n) (p q : List Instr) :
+    run t s (p ++ q) = run t s p >>= fun s' => run t s' q := by
+  induction p generalizing s with
+  | nil => rfl
+  | cons i p ih =>
+    simp only [List.cons_append, run]
+    cases step t s i with
+    | error e => rfl
+    | ok s' => exact ih s'
+
+/-- self-swap, self-assignment, self-move-assignment and the round trip through a `no_init` box leave everything unchanged -/
+theorem step_identity (t : Ty) (s : St n) (i : Instr) (h : i = .ss ∨ i = .sa ∨ i = .sm ∨ i = .ni) : step t s i = .ok s := by
+  rcases h with h | h | h | h <;> subst h <;> rfl
+
+/-- swapping twice (two objects, or the two corners of one object) restores the state -/
+theorem run_swap_swap (t : Ty) (s : St n) : run t s [.sw, .sw] = .ok s ∧ run t s [.sc, .sc] = .ok s := ⟨rfl, rfl⟩
+
+/-- save `pos()`, overwrite it, restore it -/
+theorem run_save_restore (t : Ty) (s : St n) : run t s [.vp, .pm, .pv] = .ok { s with v := s.a.min } := rfl
+
+/-- only `swap(A, B)` writes to `B` (in particular `A = std::move(B)` leaves `B` as it was) -/
+theorem run_b_unchanged (t : Ty) (p : List Instr) (hp : ∀ i ∈ p, i ≠ Instr.sw) (s s' : St n) (h : run t s p = .ok s') :
+    s'.b = s.b := by
+  induction p generalizing s with
+  | nil => cases h; rfl
+  | cons i p ih =>
+    simp only [run] at h
+    cases hs : step t s i with
+    | error e => rw [hs] at h; cases h
+    | ok s1 =>
+      rw [hs] at h
+      have h1 := ih (fun j hj => hp j (List.mem_cons_of_mem _ hj)) s1 h
+      have hi : i ≠ Instr.sw := hp i List.mem_cons_self
+      have : s1.b = s.b := by
+        cases i <;> simp only [step, pure, Except.pure, bind, Except.bind] at hs <;> try (cases hs; rfl)
+        all_goals first
+          | exact absurd rfl hi
+          | (split at hs <;> cases hs <;> rfl)
+          | (split at hs <;> try cases hs) <;> rfl
+          | (split at hs <;> try cases hs) <;> (split at hs <;> try cases hs) <;> rfl
+      rw [h1, this]
+
+/-! ## accumulation loops -/
+
+/-- `for (p : ps) b = extend_bounding_box(b, p);` yields the least box that contains `b` corner-wise and has every
+    point of the list in its closed hull — for every list, in every dimension. -/
+theorem foldPoints_spec (b : Box n) (ps : List (Vec n)) :
+    contains (foldPoints b ps) b = true ∧ (∀ p ∈ ps, MemClosed (foldPoints b ps) p) ∧
+    ∀ c : Box n, contains c b = true → (∀ p ∈ ps, MemClosed c p) → contains c (foldPoints b ps) = true := by
+  induction ps generalizing b with
+  | nil =>
+    refine ⟨?_, by simp, fun c hc _ => hc⟩
+    rw [contains_iff]; intro i; exact ⟨Int.le_refl _, Int.le_refl _⟩
+  | cons q ps ih =>
+    obtain ⟨h1, h2, h3⟩ := ih (extendPoint b q)
+    obtain ⟨e1, e2, e3⟩ := extendPoint_spec b q
+    have hfold : foldPoints b (q :: ps) = foldPoints (extendPoint b q) ps := rfl
+    rw [hfold]
+    refine ⟨?_, ?_, ?_⟩
+    · rw [contains_iff] at *
+      intro i
+      have := h1 i; have := e1 i
+      simp only [Fin.getElem_fin] at *
+      omega
+    · intro p hp
+      rcases List.mem_cons.1 hp with rfl | hp
+      · intro i
+        have := (contains_iff _ _).1 h1 i
+        have := e2 i
+        simp only [Fin.getElem_fin] at *
+        omega
+      · exact h2 p hp
+    · intro c hc hps
+      exact h3 c (e3 c hc (hps q List.mem_cons_self)) (fun p hp => hps p (List.mem_cons_of_mem _ hp))
+
+/-- `for (b : bs) a = extend_bounding_box(a, b);` contains every box of the list (and `a`) and is contained in every box
+    that does. -/
+theorem foldBoxes_spec (a : Box n) (bs : List (Box n)) :
+    contains (foldBoxes a bs) a = true ∧ (∀ b ∈ bs, contains (foldBoxes a bs) b = true) ∧
+    ∀ c : Box n, contains c a = true → (∀ b ∈ bs, contains c b = true) → contains c (foldBoxes a bs) = true := by
+  induction bs generalizing a with
+  | nil =>
+    refine ⟨?_, by simp, fun c hc _ => hc⟩
+    rw [contains_iff]; intro i; exact ⟨Int.le_refl _, Int.le_refl _⟩
+  | cons q bs ih =>
+    obtain ⟨h1, h2, h3⟩ := ih (extendBox a q)
+    obtain ⟨e1, e2⟩ := extendBox_contains a q
+    have hfold : foldBoxes a (q :: bs) = foldBoxes (extendBox a q) bs := rfl
+    rw [hfold]
+    have trans : ∀ x : Box n, contains (extendBox a q) x = true → contains (foldBoxes (extendBox a q) bs) x = true := by
+      intro x hx
+      rw [contains_iff] at *
+      intro i
+      have := h1 i; have := hx i
+      simp only [Fin.getElem_fin] at *
+      omega
+    refine ⟨trans a e1, ?_, ?_⟩
+    · intro b hb
+      rcases List.mem_cons.1 hb with rfl | hb
+      · exact trans _ e2
+      · exact h2 b hb
+    · intro c hc hbs
+      refine h3 c ?_ (fun b hb => hbs b (List.mem_cons_of_mem _ hb))
+      have hq := hbs q List.mem_cons_self
+      rw [contains_iff] at *
+      intro i
+      have := hc i; have := hq i
+      simp only [Fin.getElem_fin, extendBox, initMax_min, initMax_max] at *
+      omega
+
+/-- as point sets: the accumulated bounding box of non-empty boxes is the smallest box containing all of them -/
+theorem foldBoxes_least (a : Box n) (bs : List (Box n)) (c : Box n) (ha : NonEmpty a) (hbs : ∀ b ∈ bs, NonEmpty b)
+    (hac : Subset a c) (hbc : ∀ b ∈ bs, Subset b c) :
+    Subset a (foldBoxes a bs) ∧ (∀ b ∈ bs, Subset b (foldBoxes a bs)) ∧ Subset (foldBoxes a bs) c := by
+  obtain ⟨h1, h2, h3⟩ := foldBoxes_spec a bs
+  refine ⟨subset_of_contains _ _ h1, fun b hb => subset_of_contains _ _ (h2 b hb), ?_⟩
+  apply subset_of_contains
+  apply h3
+  · rw [contains_iff]; exact (subset_iff c a ha).1 hac
+  · intro b hb
+    rw [contains_iff]; exact (subset_iff c b (hbs b hb)).1 (hbc b hb)
+
+/-- the order in which the boxes are accumulated does not matter -/
+theorem foldBoxes_perm (a : Box n) (bs cs : List (Box n)) (h : bs.Perm cs) : foldBoxes a bs = foldBoxes a cs := by
+  unfold foldBoxes
+  induction h generalizing a with
+  | nil => rfl
+  | cons x _ ih => exact ih (extendBox a x)
+  | swap x y l =>
+    simp only [List.foldl_cons]
+    rw [extendBox_assoc, extendBox_comm y x, ← extendBox_assoc]
+  | trans _ _ ih1 ih2 => rw [ih1, ih2]
+
+/-- `for (b : bs) a = intersection(a, b);` never faults, and its points are exactly the points common to all boxes -/
+theorem mem_foldIntersection (t : Ty) (a : Box n) (bs : List (Box n)) :
+    ∃ r, foldIntersection t a bs = .ok r ∧ ∀ p, Mem r p ↔ (Mem a p ∧ ∀ b ∈ bs, Mem b p) := by
+  induction bs generalizing a with
+  | nil => exact ⟨a, rfl, fun p => by simp⟩
+  | cons b bs ih =>
+    obtain ⟨r0, hr0⟩ := intersection_total t a b
+    obtain ⟨r, hr, hm⟩ := ih r0
+    refine ⟨r, ?_, fun p => ?_⟩
+    · simp only [foldIntersection, hr0, bind, Except.bind]; exact hr
+    · rw [hm p, mem_intersection t a b r0 hr0 p]
+      simp only [List.mem_cons, forall_eq_or_imp]
+      exact and_assoc
+
+/-! ## `center` in general, `stretch_relative` -/
+
+/-- `center` of any box whose corners and size are values of the type — inverted boxes included:
+    `pos + (max - pos) / 2` with C++'s division (rounding towards zero). -/
+theorem center_general (t : Ty) (b : Box n) (hr : b.Rep t) (hs : ∀ i : Fin n, t.Rep (b.max[i] - b.min[i])) :
+    center t b = .ok (Vector.ofFn fun i => b.min[i] + Int.tdiv (b.max[i] - b.min[i]) 2) := by
+  have hh := halfV_ok t (vsub b.max b.min) (fun i => by simpa using hs i)
+  simp only [halfV, bind, Except.bind] at hh
+  unfold center
+  rw [size_spec t b hs]
+  simp only [bind, Except.bind]
+  rw [hh]
+  simp only
+  have : vadd b.min (Vector.ofFn fun i : Fin n => Int.tdiv (vsub b.max b.min)[i] 2) =
+      Vector.ofFn fun i : Fin n => b.min[i] + Int.tdiv (b.max[i] - b.min[i]) 2 := by
+    apply vec_ext; intro i; simp
+  rw [this]
+  apply Ty.normV_ok
+  intro i
+  have := hr i
+  obtain ⟨b1, b2⟩ := tdiv2_bounds (b.max[i] - b.min[i])
+  simp only [Fin.getElem_fin, Vector.getElem_ofFn] at *
+  by_cases h0 : 0 ≤ b.max[i.val] - b.min[i.val]
+  · exact t.rep_between this.1 this.2 (by have := b1 h0; omega) (by have := b1 h0; omega)
+  · exact t.rep_between this.2 this.1 (by have := b2 (by omega); omega) (by have := b2 (by omega); omega)
+
+/-- `stretch_relative(b, f)`: the box of size `d = size * f` around the centre, i.e. with
+    `pos = center - d / 2` and `max = pos + d` (all intermediate values representable). -/
+theorem stretchRelative_spec (t : Ty) (b : Box n) (f c : Vec n)
+    (hs : ∀ i : Fin n, t.Rep (b.max[i] - b.min[i]))
+    (hd : ∀ i : Fin n, t.Rep ((b.max[i] - b.min[i]) * f[i]))
+    (hc : center t b = .ok c)
+    (hp : ∀ i : Fin n, t.Rep (c[i] - Int.tdiv ((b.max[i] - b.min[i]) * f[i]) 2))
+    (hm : ∀ i : Fin n, t.Rep (c[i] - Int.tdiv ((b.max[i] - b.min[i]) * f[i]) 2 + (b.max[i] - b.min[i]) * f[i])) :
+    stretchRelative t b f =
+      .ok ⟨Vector.ofFn fun i => c[i] - Int.tdiv ((b.max[i] - b.min[i]) * f[i]) 2,
+           Vector.ofFn fun i => c[i] - Int.tdiv ((b.max[i] - b.min[i]) * f[i]) 2 + (b.max[i] - b.min[i]) * f[i]⟩ := by
+  unfold stretchRelative
+  rw [size_spec t b hs, hc]
+  simp only [bind, Except.bind]
+  rw [Ty.normV_ok t _ (fun i => by simpa using hd i)]
+  simp only
+  rw [halfV_ok t _ (fun i => by simpa using hd i)]
+  simp only
+  have e1 : vsub c (Vector.ofFn fun i : Fin n => Int.tdiv (vmul (vsub b.max b.min) f)[i] 2) =
+      Vector.ofFn fun i : Fin n => c[i] - Int.tdiv ((b.max[i] - b.min[i]) * f[i]) 2 := by
+    apply vec_ext; intro i; simp
+  rw [e1, Ty.normV_ok t _ (fun i => by simpa using hp i)]
+  simp only
+  rw [mkPosSize_spec t _ _ (fun i => by simpa using hm i)]
+  congr 1
+  apply box_ext <;> intro i <;> simp
+
+/-- the factor 1 gives the box back (also for odd sizes: the same rounded half is added and subtracted) -/
+theorem stretchRelative_one (t : Ty) (b : Box n) (hr : b.Rep t) (hs : ∀ i : Fin n, t.Rep (b.max[i] - b.min[i])) :
+    stretchRelative t b (Vector.replicate n 1) = .ok b := by
+  have hc := center_general t b hr hs
+  rw [stretchRelative_spec t b _ _ hs (fun i => by simpa using hs i) hc]
+  · congr 1
+    apply box_ext <;> intro i <;> simp <;> omega
+  · intro i
+    have := (hr i).1
+    simp only [Fin.getElem_fin, Vector.getElem_ofFn, Vector.getElem_replicate, Int.mul_one] at *
+    have e : b.min[i.val] + (b.max[i.val] - b.min[i.val]).tdiv 2 - (b.max[i.val] - b.min[i.val]).tdiv 2 = b.min[i.val] := by omega
+    rw [e]; exact this
+  · intro i
+    have := (hr i).2
+    simp only [Fin.getElem_fin, Vector.getElem_ofFn, Vector.getElem_replicate, Int.mul_one] at *
+    have e : b.min[i.val] + (b.max[i.val] - b.min[i.val]).tdiv 2 - (b.max[i.val] - b.min[i.val]).tdiv 2 +
+        (b.max[i.val] - b.min[i.val]) = b.max[i.val] := by omega
+    rw [e]; exact this
+
+/-! ## `structure_cast` -/
+
+/-- a box all of whose coordinates and sizes are values of both types is converted to itself … -/
+theorem structureCast_spec (src dst : Ty) (hb : 0 < dst.bits) (b : Box n)
+    (hs : ∀ i : Fin n, src.Rep (b.max[i] - b.min[i])) (hr : b.Rep dst) (hd : ∀ i : Fin n, dst.Rep (b.max[i] - b.min[i])) :
+    structureCast src dst b = .ok b := by
+  unfold structureCast
+  rw [size_spec src b hs]
+  simp only [bind, Except.bind]
+  have e1 : b.min.map dst.wrap = b.min := by
+    apply vec_ext; intro i; simp only [Fin.getElem_fin, Vector.getElem_map]; exact dst.wrap_of_rep hb (hr i).1
+  have e2 : (vsub b.max b.min).map dst.wrap = vsub b.max b.min := by
+    apply vec_ext; intro i
+    simp only [Fin.getElem_fin, Vector.getElem_map]
+    exact dst.wrap_of_rep hb (by simpa using hd i)
+  rw [e1, e2, mkPosSize_spec]
+  · congr 1
+    apply box_ext <;> intro i <;> simp
+    omega
+  · intro i
+    have := (hr i).2
+    simp only [Fin.getElem_fin, vsub_get] at *
+    have e : b.min[i.val] + (b.max[i.val] - b.min[i.val]) = b.max[i.val] := by omega
+    rw [e]; exact this
+
+/-- … and a conversion to an unsigned type reduces both corners modulo 2^bits (a box with negative coordinates
+    wraps around; position and size wrap separately and their sum lands on the wrapped `max`). -/
+theorem structureCast_unsigned (src dst : Ty) (hu : dst.signed = false) (b : Box n)
+    (hs : ∀ i : Fin n, src.Rep (b.max[i] - b.min[i])) :
+    structureCast src dst b = .ok ⟨b.min.map (· % 2 ^ dst.bits), b.max.map (· % 2 ^ dst.bits)⟩ := by
+  unfold structureCast
+  rw [size_spec src b hs]
+  simp only [bind, Except.bind]
+  rw [mkPosSize_unsigned dst hu]
+  have hw : dst.wrap = (· % 2 ^ dst.bits) := by funext x; simp [Ty.wrap, hu]
+  rw [hw]
+  congr 1
+  apply box_ext <;> intro i <;> simp only [Fin.getElem_fin, Vector.getElem_map, vadd_get, vsub_get]
+  rw [← Int.add_emod]
+  congr 1
+  omega
+
+/-! ## unsigned coordinate types: the statements that also hold for wrapped sizes -/
+
+/-- `Box(b.pos(), b.size())` is `b` again for every box of an unsigned type, inverted ones (wrapped size) included -/
+theorem mkPosSize_size_unsigned (t : Ty) (hu : t.signed = false) (b : Box n) (hr : b.Rep t) :
+    (size t b >>= fun s => mkPosSize t b.min s) = .ok b := by
+  rw [size_unsigned t hu]
+  show mkPosSize t b.min _ = _
+  rw [mkPosSize_unsigned t hu]
+  congr 1
+  apply box_ext <;> intro i <;> simp only [Fin.getElem_fin, Vector.getElem_map, vadd_get, vsub_get]
+  rw [Int.add_emod_emod]
+  have e : b.min[i.val] + (b.max[i.val] - b.min[i.val]) = b.max[i.val] := by omega
+  rw [e]
+  exact t.emod_of_rep hu (hr i).2
+
+/-- `stretch_absolute(shrink(b, v), v) = b` for every box and vector of an unsigned type -/
+theorem stretch_shrink_unsigned (t : Ty) (hu : t.signed = false) (b : Box n) (v : Vec n) (hr : b.Rep t) :
+    (shrink t b v >>= fun s => stretchAbsolute t s v) = .ok b := by
+  rw [shrink_unsigned t hu]
+  show stretchAbsolute t _ v = _
+  rw [stretchAbsolute_unsigned t hu]
+  congr 1
+  apply box_ext <;> intro i <;> simp only [Fin.getElem_fin, Vector.getElem_map, vadd_get, vsub_get]
+  · rw [Int.emod_sub_emod]
+    have e : b.min[i.val] + v[i.val] - v[i.val] = b.min[i.val] := by omega
+    rw [e]
+    exact t.emod_of_rep hu (hr i).1
+  · rw [Int.emod_add_emod]
+    have e : b.max[i.val] - v[i.val] + v[i.val] = b.max[i.val] := by omega
+    rw [e]
+    exact t.emod_of_rep hu (hr i).2
+
+/-- the key (pos, wrapped size) still determines a box of an unsigned type -/
+theorem key_inj_unsigned (t : Ty) (hu : t.signed = false) (a b : Box n) (ha : a.Rep t) (hb : b.Rep t)
+    (h1 : a.min.toList = b.min.toList)
+    (h2 : ((vsub a.max a.min).map (· % 2 ^ t.bits)).toList = ((vsub b.max b.min).map (· % 2 ^ t.bits)).toList) : a = b := by
+  have e1 : a.min = b.min := Vector.toList_inj.1 h1
+  have e2 := Vector.toList_inj.1 h2
+  have h := eq_unsigned t hu a b ha hb
+  unfold eq at h
+  rw [(vecEq_iff _ _).2 e1, size_unsigned t hu, size_unsigned t hu] at h
+  simp only [if_true, bind, Except.bind, pure, Except.pure, (vecEq_iff _ _).2 e2] at h
+  have := Except.ok.inj h
+  simpa using this.symm
+
+/-- `<` on boxes of an unsigned type is the order of `std::pair` on (pos, size modulo 2^bits) and is a strict total order
+    on all boxes, inverted ones included. -/
+theorem lt_strict_total_unsigned (t : Ty) (hu : t.signed = false) (a b c : Box n) (ha : a.Rep t) (hb : b.Rep t) :
+    lt t a b = .ok (pairLt a.min.toList ((vsub a.max a.min).map (· % 2 ^ t.bits)).toList
+                           b.min.toList ((vsub b.max b.min).map (· % 2 ^ t.bits)).toList) ∧
+    lt t a a = .ok false ∧
+    (lt t a b = .ok true → lt t b a = .ok false) ∧
+    (lt t a b = .ok true → lt t b c = .ok true → lt t a c = .ok true) ∧
+    (lt t a b = .ok false → lt t b a = .ok false → a = b) := by
+  have key : ∀ x y : Box n, lt t x y = .ok (pairLt x.min.toList ((vsub x.max x.min).map (· % 2 ^ t.bits)).toList
+      y.min.toList ((vsub y.max y.min).map (· % 2 ^ t.bits)).toList) := by
+    intro x y
+    unfold lt
+    rw [size_unsigned t hu, size_unsigned t hu]
+    rfl
+  rw [key a b, key a a, key b a, key b c, key a c]
+  refine ⟨rfl, by rw [pairLt_irrefl], ?_, ?_, ?_⟩
+  · intro h
+    rw [pairLt_asymm _ _ _ _ (by simpa using h)]
+  · intro h1 h2
+    rw [pairLt_trans _ _ b.min.toList ((vsub b.max b.min).map (· % 2 ^ t.bits)).toList _ _ (by simp) (by simp)
+      (by simpa using h1) (by simpa using h2)]
+  · intro h1 h2
+    obtain ⟨e1, e2⟩ := pairLt_total _ _ _ _ (by simp) (by simp) (Except.ok.inj h1) (Except.ok.inj h2)
+    exact key_inj_unsigned t hu a b ha hb e1 e2
+
+/-- with an unsigned coordinate type no statement sequence runs into undefined behaviour -/
+theorem run_total_unsigned (t : Ty) (hu : t.signed = false) (p : List Instr) (s : St n) : ∃ s', run t s p = .ok s' := by
+  have hsize : ∀ b : Box n, ∃ v, size t b = .ok v := fun b => ⟨_, size_unsigned t hu b⟩
+  have hhalf : ∀ v : Vec n, ∃ w, halfV t v = .ok w := by
+    intro v
+    refine ⟨Vector.ofFn fun i => Int.tdiv v[i] 2 % 2 ^ t.bits, ?_⟩
+    unfold halfV
+    apply seqFn_ok
+    intro i
+    simp [Ty.div, t.norm_unsigned hu, Except.map, pure, Except.pure, bind, Except.bind]
+  have hcenter : ∀ b : Box n, ∃ c, center t b = .ok c := by
+    intro b
+    obtain ⟨v, hv⟩ := hsize b
+    obtain ⟨w, hw⟩ := hhalf v
+    refine ⟨(vadd b.min w).map (· % 2 ^ t.bits), ?_⟩
+    simp only [halfV, bind, Except.bind] at hw
+    unfold center
+    rw [hv]
+    simp only [bind, Except.bind]
+    rw [hw]
+    exact Ty.normV_unsigned t hu _
+  induction p generalizing s with
+  | nil => exact ⟨s, rfl⟩
+  | cons i p ih =>
+    have hstep : ∃ s1, step t s i = .ok s1 := by
+      cases i <;> simp only [step, pure, Except.pure] <;> try exact ⟨_, rfl⟩
+      · obtain ⟨r, hr⟩ := intersection_total t s.a s.b
+        exact ⟨_, by rw [hr]; rfl⟩
+      · exact ⟨_, by rw [shrink_unsigned t hu]; rfl⟩
+      · exact ⟨_, by rw [stretchAbsolute_unsigned t hu]; rfl⟩
+      · exact ⟨_, by rw [shrink_unsigned t hu]; rfl⟩
+      · exact ⟨_, by rw [stretchAbsolute_unsigned t hu]; rfl⟩
+      · exact ⟨_, by rw [size_unsigned t hu]; simp only [bind, Except.bind]; rw [mkPosSize_unsigned t hu]⟩
+      · obtain ⟨c, hc⟩ := hcenter s.a
+        exact ⟨_, by rw [hc]; rfl⟩
+      · split <;> exact ⟨_, rfl⟩
+      · obtain ⟨r, hr⟩ := intersection_total t s.a s.a
+        exact ⟨_, by rw [hr]; rfl⟩
+    obtain ⟨s1, h1⟩ := hstep
+    obtain ⟨s', h'⟩ := ih s1
+    exact ⟨s', by simp only [run, h1, bind, Except.bind]; exact h'⟩
+
+/-! ## `operator<<`, dimension 0 -/
+
+/-- the text is `(position,size)` — the size, not `max()` -/
+theorem output_spec (t : Ty) (b : Box n) (hs : ∀ i : Fin n, t.Rep (b.max[i] - b.min[i])) :
+    output t b = .ok ("(" ++ showOut b.min ++ "," ++ showOut (vsub b.max b.min) ++ ")") := by
+  unfold output
+  rw [size_spec t b hs]
+  rfl
+
+/-- N = 0 (everything but `corner_points` compiles): there is one box, it has exactly one point, every predicate is true -/
+theorem zero_dim (a b : Box 0) (p : Vec 0) :
+    a = b ∧ containsPoint a p = true ∧ intersects a b = true ∧ contains a b = true ∧ NonEmpty a := by
+  refine ⟨box_ext (fun i => i.elim0) (fun i => i.elim0), ?_, ?_, ?_, ⟨p, fun i => i.elim0⟩⟩
+  · rw [containsPoint_iff]; exact fun i => i.elim0
+  · rw [intersects_iff]; exact fun i => i.elim0
+  · rw [contains_iff]; exact fun i => i.elim0
+
+/-! ## signed types: the functions that compute `size()` are undefined when it overflows -/
+
+theorem center_signed_overflow (t : Ty) (hs : t.signed = true) (b : Box n) (h : ¬ ∀ i : Fin n, t.Rep (b.max[i] - b.min[i])) :
+    center t b = .error .signedOverflow := by
+  unfold center
+  rw [size_signed_overflow t hs b h]
+  rfl
+
+theorem cornerPoints_signed_overflow (t : Ty) (hs : t.signed = true) (b : Box n) (h : ¬ ∀ i : Fin n, t.Rep (b.max[i] - b.min[i])) :
+    cornerPoints t b = .error .signedOverflow := by
+  unfold cornerPoints
+  rw [bitStrings_eq]
+  have hpos : 0 < 2 ^ n := Nat.two_pow_pos n
+  obtain ⟨m, hm⟩ : ∃ m, 2 ^ n = m + 1 := ⟨2 ^ n - 1, by omega⟩
+  rw [hm, List.range_succ_eq_map, List.map_cons, List.mapM_cons]
+  rw [size_signed_overflow t hs b h]
+  rfl
+
+theorem lt_signed_overflow (t : Ty) (hs : t.signed = true) (a b : Box n)
+    (h : ¬ (∀ i : Fin n, t.Rep (a.max[i] - a.min[i])) ∨ ¬ (∀ i : Fin n, t.Rep (b.max[i] - b.min[i]))) :
+    lt t a b = .error .signedOverflow := by
+  unfold lt
+  by_cases ha : ∀ i : Fin n, t.Rep (a.max[i] - a.min[i])
+  · have hb : ¬ ∀ i : Fin n, t.Rep (b.max[i] - b.min[i]) := by
+      rcases h with h | h
+      · exact absurd ha h
+      · exact h
+    rw [size_spec t a ha, size_signed_overflow t hs b hb]
+    rfl
+  · rw [size_signed_overflow t hs a ha]
+    rfl
+
+/-- `==` looks at the sizes only when the positions agree (`&&` short-circuits): with different positions it is defined even when a
+    size overflows, with equal positions it is not -/
+theorem eq_signed_overflow (t : Ty) (hs : t.signed = true) (a b : Box n)
+    (h : ¬ (∀ i : Fin n, t.Rep (a.max[i] - a.min[i])) ∨ ¬ (∀ i : Fin n, t.Rep (b.max[i] - b.min[i]))) :
+    eq t a b = if a.min = b.min then .error .signedOverflow else .ok false := by
+  unfold eq
+  by_cases hm : a.min = b.min
+  · rw [(vecEq_iff _ _).2 hm]
+    simp only [if_true, hm]
+    by_cases ha : ∀ i : Fin n, t.Rep (a.max[i] - a.min[i])
+    · have hb : ¬ ∀ i : Fin n, t.Rep (b.max[i] - b.min[i]) := by
+        rcases h with h | h
+        · exact absurd ha h
+        · exact h
+      rw [size_spec t a ha, size_signed_overflow t hs b hb]
+      rfl
+    · rw [size_signed_overflow t hs a ha]
+      rfl
+  · have : vecEq a.min b.min = false := by
+      rw [← Bool.not_eq_true, vecEq_iff]; exact hm
+    simp [this, hm, pure, Except.pure]
+
 /-! ## Non-vacuity and boundary conventions on concrete values -/
 
 private def bx (a b c d : Int) : Box 2 := ⟨#v[a, b], #v[c, d]⟩
@@ -729,5 +1266,28 @@ example : extendPoint (bx 1 1 1 1) #v[3, 4] = bx 1 1 3 4 ∧ containsPoint (exte
 -- `interval_distance` is not symmetric when the two upper ends coincide and one interval contains the other
 example : intervalDistance Ty.int (0, 3) (1, 3) = .ok (-2) ∧ intervalDistance Ty.int (1, 3) (0, 3) = .ok 0 := by decide +kernel
 example : distance Ty.int (bx 1 3 3 5) (bx 5 2 6 4) = .ok #v[2, -1] := by decide +kernel
+
+-- ## extension round
+-- assignment through `pos()` keeps `max()`: the box is resized, not moved
+example : setPos (bx 0 0 2 2) #v[1, 1] = bx 1 1 2 2 ∧ size Ty.int (setPos (bx 0 0 2 2) #v[1, 1]) = .ok #v[1, 1] := by decide +kernel
+-- `A.pos() = A.max()` (aliasing inside the object), then `A = extend_bounding_box(A, V)`, then `swap(A.pos(), A.max())`
+example : run Ty.int ⟨bx 0 0 2 2, bx 1 1 3 3, #v[5, -1]⟩ [.pm, .xv, .sc] = .ok ⟨bx 5 2 2 (-1), bx 1 1 3 3, #v[5, -1]⟩ := by decide +kernel
+-- `A.pos() = center(A)` followed by `size()`: the size is recomputed from the new corner
+example : (run Ty.int ⟨bx 0 0 4 6, bx 0 0 0 0, #v[0, 0]⟩ [.ce]).map (fun s => size Ty.int s.a) = .ok (.ok #v[2, 3]) := by decide +kernel
+-- accumulation loops
+example : foldPoints (bx 0 0 0 0) [#v[1, 2], #v[-1, 5], #v[3, 3]] = bx (-1) 0 3 5 := by decide +kernel
+example : foldBoxes (bx 0 0 2 2) [bx 1 1 3 3, bx (-1) 1 5 2] = bx (-1) 0 5 3 ∧
+    foldIntersection Ty.int (bx 0 0 2 2) [bx 1 1 3 3, bx (-1) 1 5 2] = .ok (bx 1 1 2 2) := by decide +kernel
+-- `stretch_relative`: factor 2 around the centre, factor 1 is the identity also for odd sizes
+example : stretchRelative Ty.int (bx 0 0 4 6) #v[2, 1] = .ok (bx (-2) 0 6 6) ∧ stretchRelative Ty.int (bx 0 0 3 5) #v[1, 1] = .ok (bx 0 0 3 5) := by
+  decide +kernel
+-- the centre of an inverted box rounds towards `pos` (C++ division truncates)
+example : center Ty.int (bx 0 0 (-3) 3) = .ok #v[-1, 1] := by decide +kernel
+-- `structure_cast` int → unsigned wraps a negative corner; unsigned → int near 2^31 is undefined (pos + size overflows)
+example : structureCast Ty.int Ty.uint (bx (-3) 0 1 2) = .ok (bx 4294967293 0 1 2) := by decide +kernel
+example : structureCast Ty.uint Ty.int (bx 2147483647 0 2147483648 1) = .error .signedOverflow := by decide +kernel
+example : output Ty.int (bx (-3) (-3) 1 2) = .ok "((-3,-3),(4,5))" := by decide +kernel
+-- unsigned: an inverted box is reproduced by its (pos, wrapped size)
+example : (size Ty.uint (bx 3 0 2 3) >>= fun s => mkPosSize Ty.uint (bx 3 0 2 3).min s) = .ok (bx 3 0 2 3) := by decide +kernel
 
 end Fcppt.C13
